@@ -51,6 +51,10 @@ INPUTS = [
     ("benign-list", pickle.dumps([1, 2, {"a": (3, 4)}], 2)),
     ("benign-proto4", pickle.dumps({"k": [1.5, "s", b"b"]}, 4)),
     ("benign-stdlib-object", pickle.dumps(__import__("collections").OrderedDict(a=1))),
+    # flagged without any import or call: only the opcode-level analyses speak (duplicate / misplaced PROTO around plain data)
+    ("plain-data-duplicate-proto", b"\x80\x02\x80\x02K\x01."),
+    ("plain-data-duplicate-proto-other-version", b"\x80\x04\x80\x02]\x94."),
+    ("plain-data-misplaced-proto", b"K\x01\x80\x030K\x02."),
     ("sink-call", assemble(call_sink + [op("STOP")])),
     ("sink-call-popped", assemble(call_sink + [op("POP"), op("NONE"), op("STOP")])),
     ("sink-import-only", assemble(G("verif_c02_sink", "hit") + [op("STOP")])),
